@@ -282,6 +282,152 @@ fn hist_random(ctx: &mut Ctx) {
     run_world(ctx, kind, hs, cuts);
 }
 
+
+/// subscribers join, subscribe and unsubscribe as concurrent tasks while the publisher keeps
+/// publishing; only the final state is judged (probes after the world has settled), plus the
+/// well-formedness of every subscriber's stream and the absence of hangs
+fn hist_concurrent(ctx: &mut Ctx) {
+    let kind = if ctx.idx % 2 == 0 { Kind::Pub } else { Kind::Xpub };
+    world::swarm(ctx, SwarmOpts::default());
+    let nsub = 2 + ctx.plan(4) as usize;
+    let hs: Vec<Vec<Op>> = (0..nsub).map(|_| (0..ctx.plan(7)).map(|_| op_of(ctx.plan(NOPS), ctx.plan(4) as u8)).collect()).collect();
+    let starts: Vec<u32> = (0..nsub).map(|_| ctx.plan(30) as u32).collect();
+    let gaps: Vec<u32> = (0..nsub).map(|_| ctx.plan(4) as u32).collect();
+    let filler = 5 + ctx.plan(40) as usize;
+    let out = Rc::new(RefCell::new(Out { viol: vec![], done: false, probes_judged: 0, matched: 0, unmatched: 0 }));
+    let o2 = out.clone();
+    let h2 = hs.clone();
+    let starts_s = starts.clone();
+    rt::task::spawn_local("app", async move {
+        let mut sock = AnySock::new(kind, None);
+        let ep = sock.bind("tcp://127.0.0.1:0").await.expect("bind").to_string();
+        let peers: Rc<RefCell<Vec<Option<RawPeer>>>> = Rc::new(RefCell::new((0..nsub).map(|_| None).collect()));
+        let finished = Rc::new(RefCell::new(0usize));
+        for i in 0..nsub {
+            let (ep, peers, fin, h, start, gap) = (ep.clone(), peers.clone(), finished.clone(), h2[i].clone(), starts[i], gaps[i]);
+            rt::task::spawn_local("subscriber", async move {
+                for _ in 0..start {
+                    rt::task::yield_now().await;
+                }
+                let Ok(mut p) = RawPeer::connect(&ep) else { return };
+                let _ = p.hello(if i % 2 == 0 { "SUB" } else { "XSUB" }, None).await;
+                p.conn.set_io(1, |io| io.wyield_pm = 0);
+                p.conn.set_cap(1, 1 << 40);
+                for op in &h {
+                    let _ = p.send_msg(&op.wire()).await;
+                    for _ in 0..gap {
+                        rt::task::yield_now().await;
+                    }
+                }
+                peers.borrow_mut()[i] = Some(p);
+                *fin.borrow_mut() += 1;
+            });
+        }
+        // publish filler while the subscribers come and go through their histories
+        for n in 0..filler {
+            let msg = vec![PROBES[n % PROBES.len()].to_vec(), format!("filler{n}").into_bytes()];
+            if let Err(e) = sock.send(to_zmq(&msg)).await {
+                o2.borrow_mut().viol.push(("publish_failed", e.to_string()));
+                return world::park().await;
+            }
+            if kind == Kind::Xpub && n % 3 == 0 {
+                let _ = rt::future::poll_budget(sock.recv(), 1).await;
+            }
+            rt::task::yield_now().await;
+        }
+        // settle: every subscriber has sent its history and it has been processed
+        for _ in 0..50 {
+            if kind == Kind::Xpub {
+                while let Some(r) = rt::future::or_idle(sock.recv()).await {
+                    if r.is_err() {
+                        break;
+                    }
+                }
+            } else {
+                rt::task::idle().await;
+            }
+            if *finished.borrow() == nsub {
+                break;
+            }
+        }
+        if kind == Kind::Xpub {
+            while let Some(r) = rt::future::or_idle(sock.recv()).await {
+                if r.is_err() {
+                    break;
+                }
+            }
+        }
+        rt::task::idle().await;
+        let peers = peers.borrow();
+        let before: Vec<usize> = peers.iter().map(|p| p.as_ref().map(|p| p.inbound().messages().len()).unwrap_or(0)).collect();
+        let mut expect: Vec<Vec<Vec<Vec<u8>>>> = vec![Vec::new(); nsub];
+        for (k, pf) in PROBES.iter().enumerate() {
+            let msg = vec![pf.to_vec(), format!("final{k}").into_bytes()];
+            for i in 0..nsub {
+                let mut m = Model::default();
+                for op in &h2[i] {
+                    m.apply(op);
+                }
+                if m.matches(pf) {
+                    expect[i].push(msg.clone());
+                }
+            }
+            if let Err(e) = sock.send(to_zmq(&msg)).await {
+                o2.borrow_mut().viol.push(("publish_failed", e.to_string()));
+                return world::park().await;
+            }
+        }
+        rt::task::idle().await;
+        for i in 0..nsub {
+            let Some(p) = peers[i].as_ref() else {
+                o2.borrow_mut().viol.push(("harness", format!("subscriber {i} never finished")));
+                continue;
+            };
+            let got = p.inbound().messages();
+            let new = got[before[i].min(got.len())..].to_vec();
+            let mut o = o2.borrow_mut();
+            o.matched += expect[i].len() as u32;
+            o.unmatched += (PROBES.len() - expect[i].len()) as u32;
+            if new != expect[i] {
+                let clause = if new.len() < expect[i].len() { "matching_message_not_delivered" } else if new.len() > expect[i].len() { "delivered_without_matching_subscription" } else { "delivery_differs_from_model" };
+                o.viol.push((clause, format!("{} subscriber {i} (concurrent history {:?}): final probes delivered {:?}, expected {:?}", kind.name(), h2[i], new.iter().map(|m| String::from_utf8_lossy(&m[0]).to_string()).collect::<Vec<_>>(), expect[i].iter().map(|m| String::from_utf8_lossy(&m[0]).to_string()).collect::<Vec<_>>())));
+            }
+            let w = crate::oracle::check_library_stream(&p.inbound_raw(), Some(kind.name()), Some(None));
+            if let Some(pr) = w.problems.first() {
+                o.viol.push(("wire_malformed", format!("stream to subscriber {i}: {pr}")));
+            }
+        }
+        o2.borrow_mut().done = true;
+        drop(peers);
+        world::park().await;
+        drop(sock);
+    });
+    let end = ctx.sim.run(600_000);
+    if end == rt::RunEnd::Budget {
+        ctx.violation("no_quiescence", format!("{} concurrent world did not become quiescent", kind.name()));
+    }
+    let o = out.borrow();
+    let had = !o.viol.is_empty();
+    for (c, d) in o.viol.clone() {
+        if c == "harness" {
+            ctx.harness_error(d);
+        } else {
+            ctx.violation(c, d);
+        }
+    }
+    if !o.done && !had && end == rt::RunEnd::Quiescent {
+        ctx.violation("stuck", format!("{} concurrent script did not finish", kind.name()));
+    }
+    if o.matched > 0 && o.unmatched > 0 {
+        ctx.nontrivial();
+    }
+    if ctx.want_sample {
+        ctx.out.sample = Some(format!("{} with {nsub} concurrent subscribers (start delays {:?}), {filler} filler publishes; histories {:?}", kind.name(), starts_s, hs));
+    }
+    drop(o);
+    ctx.check_panics();
+}
+
 pub fn def() -> PropDef {
     PropDef {
         id: "C11",
@@ -290,6 +436,7 @@ pub fn def() -> PropDef {
         assumptions: &["matching is compared only at quiescent points (all subscription messages sent so far have been processed)", "subscribers accept every write (their pipes never answer Pending on writes), so nothing may be dropped"],
         strata: vec![
             Stratum { name: "hist_enum", quick: 2 * NHIST4, thorough: 2 * NHIST4, exhaustive: (true, true), run: hist_enum, what: "all 7382 histories <= 4 for PUB and for XPUB, one subscriber" },
+            Stratum { name: "hist_concurrent", quick: 60_000, thorough: 1_500_000, exhaustive: (false, false), run: hist_concurrent, what: "2..5 subscribers joining and subscribing concurrently with continuous publishing; final state judged" },
             Stratum { name: "hist_random", quick: 100_000, thorough: 1_500_000, exhaustive: (false, false), run: hist_random, what: "1..3 subscribers, longer histories, random transport" },
         ],
     }
